@@ -125,6 +125,7 @@ pub fn c10_print_create(inp: &mut Inp) {
     let r = IppOperationBuilder::print_job(uri(), IppPayload::new(std::io::Cursor::new(&pay[..])))
         .user_name(ascii_str(&un))
         .job_title(ascii_str(&jt))
+        .attribute(IppAttribute::new("media", IppValue::Integer(v2)))
         .attribute(IppAttribute::new("copies", IppValue::Integer(v1)))
         .attributes(vec![IppAttribute::new("sides", IppValue::Integer(v2)), IppAttribute::new("copies", IppValue::Integer(v3))])
         .build()
@@ -135,9 +136,10 @@ pub fn c10_print_create(inp: &mut Inp) {
     base_ok(g, true);
     name_attr(g, "requesting-user-name", &un);
     name_attr(g, "job-name", &jt);
-    let j = group(&r, 1, DelimiterTag::JobAttributes, 2);
+    let j = group(&r, 1, DelimiterTag::JobAttributes, 3);
     int_attr(j, "copies", v3);
     int_attr(j, "sides", v2);
+    int_attr(j, "media", v2);
     let mut p = r.into_payload();
     let mut got = [0u8; 4];
     let n = p.read(&mut got).unwrap();
@@ -221,6 +223,11 @@ pub fn c10_simple_ops(inp: &mut Inp) {
     header_ok(&r, 0x000a);
     let g = group(&r, 0, DelimiterTag::OperationAttributes, 3);
     base_ok(g, true);
+    core::mem::forget(r);
+    // an empty user name is still a user name (any UTF-8 string is a legal argument)
+    let r = IppOperationBuilder::get_jobs(uri()).user_name(ascii_str(&un)).user_name("").build().into_ipp_request();
+    let g = group(&r, 0, DelimiterTag::OperationAttributes, 4);
+    name_attr(g, "requesting-user-name", &[]);
     core::mem::forget(r);
     let r = IppOperationBuilder::cups().get_printers().into_ipp_request();
     header_ok(&r, 0x4002);
